@@ -3,9 +3,17 @@ from harness import common, tstate, tsprop
 
 PROP = 'C08'
 DRIVER = 'TorState'
-LEAN_TARGETS = ['TxV.Props.C08', 'TxV.Props.C08b']
-PROP_MODULES = ['TxV.Props.C08', 'TxV.Props.C08b']
+LEAN_TARGETS = ['TxV.Props.C08', 'TxV.Props.C08b', 'TxV.Props.SourceTie']
+PROP_MODULES = ['TxV.Props.C08', 'TxV.Props.C08b', 'TxV.Props.SourceTie']
 AUDIT = 'Audit/C08.lean'
+
+
+def extract():
+    # the state words, event map and bootstrap queries of the source, for the tie lemmas in Props/SourceTie.lean
+    from harness import extract as _x
+    return _x.state_table()
+
+
 ANCHORS = ['txtorcon/circuit.py', 'txtorcon/stream.py', 'txtorcon/torstate.py', 'txtorcon/util.py']
 RULE = ('the C07 histories (snapshot + 10-60 events Tor can emit) crossed with: listeners 1..4 registered for all circuits / all streams before '
         'the snapshot or at any position, per-object listen/unlisten at any position (also on objects that appeared earlier and on closed ones), '
